@@ -345,6 +345,12 @@ void _mzd_compress_l(mzd_t *A, rci_t r1, rci_t n1, rci_t r2) {
 
     rci_t j = r1;
 
+    /* the word writes below may cover the last word of the row: keep
+       its bits right of the last column (they belong to the parent if
+       A is a window) */
+    word *row         = mzd_row(A, i);
+    word const excess = row[A->width - 1] & ~A->high_bitmask;
+
     /* first we deal with the rest of the current word we need to
        write */
     int const rest = m4ri_radix - (j % m4ri_radix);
@@ -357,7 +363,6 @@ void _mzd_compress_l(mzd_t *A, rci_t r1, rci_t n1, rci_t r2) {
 
     /* now each write is simply a word write */
     block = (n1 + j - r1) / m4ri_radix;
-    word *row = mzd_row(A, i);
 
     if (rest % m4ri_radix == 0) {
       for (; j + m4ri_radix <= r1 + r2; j += m4ri_radix, ++block) {
@@ -391,6 +396,8 @@ void _mzd_compress_l(mzd_t *A, rci_t r1, rci_t n1, rci_t r2) {
        which deals with last few bits. */
 
     for (; j < n1 + r2; j += m4ri_radix) { row[j / m4ri_radix] = 0; }
+
+    row[A->width - 1] = (row[A->width - 1] & A->high_bitmask) | excess;
   }
 
 #endif
